@@ -426,6 +426,8 @@ def check(tree, rep, tier='quick', seed=0):
     l2c_generators_consumed_once(tree, rep)      # an aggregate over an already consumed generator adds nothing: operands silently missing
     from ..linerules import l3_lines_are_read_not_recomputed
     l3_lines_are_read_not_recomputed(tree, rep)
+    from ..linerules import l5_widened_flags_read_through_their_line
+    l5_widened_flags_read_through_their_line(tree, rep)
     # ---- R2.7 "enter here and on Form X, line N": the named line of the other form carries this line (both ends equal)
     n_carry = 0
     for (y, fr, line, tform, tline, text, where) in carries:
